@@ -8,7 +8,7 @@ from pygen import write_pkg
 from runner import Opts, run_many
 
 PKG = "todopk"
-HEAD = "from __future__ import annotations\nfrom typing import Callable, Generic, TypeVar\n\n\ndef _helper():\n    ...\n\n\nclass BaseA:\n    pass\n\n\nclass BaseB:\n    pass\n\n\nclass _PrivBase:\n    def helper(self, q: int) -> int:\n        ...\n\n"
+HEAD = "from __future__ import annotations\nfrom typing import Callable, Generic, TypeVar\n\n\ndef _helper():\n    ...\n\n\ndef make_default() -> int:\n    ...\n\n\nCONST_DEFAULT = 3\n\n\nclass BaseA:\n    pass\n\n\nclass BaseB:\n    pass\n\n\nclass _PrivBase:\n    def helper(self, q: int) -> int:\n        ...\n\n"
 
 
 def marker_kinds(todos: list[str]) -> list[str]:
@@ -89,7 +89,7 @@ def params_src(f: set, recv: str = "") -> str:
     if recv:
         ps.append(recv)
     if opt:
-        ps += ["g: int | None = None" if "@posnone" in f else "g: int = 1", "/"]
+        ps += ["g: int | None = None" if "@posnone" in f else "g: int = CONST_DEFAULT" if "@poscall" in f else "g: int = 1", "/"]
     ps.append(f"a: int{sfx}")
     if "pmiss" in f:
         ps.append("b")
@@ -115,6 +115,10 @@ def params_src(f: set, recv: str = "") -> str:
         if "variadic" not in f and "reqkwonly" not in f:
             ps.append("*")
         ps.append("hk: int | None = None")
+    if "@kwcall" in f:
+        if "variadic" not in f and "reqkwonly" not in f and "@kwnone" not in f:
+            ps.append("*")
+        ps.append("hc: int = make_default()")
     return ", ".join(ps)
 
 
@@ -127,6 +131,9 @@ def fun_src(name, f, ind="", recv="") -> str:
 
 
 def attr_src(name, f, ind="    ") -> str:
+    if "@prop" in f:
+        ret = "" if "amiss" in f else " -> set[int]"
+        return f"{ind}@property\n{ind}def {name}(self){ret}:\n{ind}    return _helper()\n"
     if "amiss" in f:
         return f"{ind}{name} = _helper()\n"
     if "setmulti" in f:
